@@ -10,6 +10,7 @@
 //! out-of-range drains.
 
 pub mod adapters;
+pub mod types;
 
 
 use simcore::core::{catch, inject_panic, shrink_list, Caught, Ctx, Tier, World, WorldInfo};
@@ -102,6 +103,14 @@ pub enum Step {
     /// `Iterator::nth` / `DoubleEndedIterator::nth_back` (what `skip`, `step_by` and their `rev()` forms call)
     Nth(u8),
     NthBack(u8),
+    /// the searching methods, which an iterator may override as well; the predicate is a fixed function of the
+    /// item's value and the selector (`sel_pred`), the same for the collection and for the model
+    Find(u8),
+    RFind(u8),
+    Position(u8),
+    RPosition(u8),
+    Any(u8),
+    All(u8),
     /// mutable iterators: overwrite the next / last element with a fresh item
     NextSet(u32),
     NextBackSet(u32),
@@ -118,9 +127,10 @@ pub enum End {
     Exhaust,
     /// `last()`
     Last,
-    /// everything that is left through `fold` / `rfold`
+    /// everything that is left through `fold` / `rfold` / `for_each`
     Fold,
     RFold,
+    ForEach,
     /// everything that is left through `rev()` (if `rev`), then `skip(skip)`, then `step_by(step)` (if > 1)
     Adapt { rev: bool, skip: u8, step: u8 },
 }
@@ -132,6 +142,8 @@ pub enum Obs {
     Hint(usize, Option<usize>),
     Count(usize),
     Items(Vec<Item>),
+    Pos(Option<usize>),
+    Flag(bool),
     /// between two actions on one container form
     Sep,
     NoRange,
@@ -175,6 +187,12 @@ pub fn run_sched<'a>(mut it: Box<dyn It + 'a>, sched: &[Step], end: End) -> Vec<
                 let (a, b) = it.size_hint();
                 out.push(Obs::Hint(a, b))
             }
+            Step::Find(k) => out.push(Obs::Item(it.find_sel(k))),
+            Step::RFind(k) => out.push(Obs::Item(it.rfind_sel(k))),
+            Step::Position(k) => out.push(Obs::Pos(it.position_sel(k))),
+            Step::RPosition(k) => out.push(Obs::Pos(it.rposition_sel(k))),
+            Step::Any(k) => out.push(Obs::Flag(it.any_sel(k))),
+            Step::All(k) => out.push(Obs::Flag(it.all_sel(k))),
             Step::Nth(n) => out.push(Obs::Item(it.nth(n as usize))),
             Step::NthBack(n) => out.push(Obs::Item(it.nth_back(n as usize))),
             Step::NextSet(k) => match it.next_set(fresh_item_static(k)) {
@@ -199,15 +217,30 @@ pub fn run_sched<'a>(mut it: Box<dyn It + 'a>, sched: &[Step], end: End) -> Vec<
         End::Last => out.push(Obs::Item(it.last())),
         End::Fold => out.push(Obs::Items(it.fold_all())),
         End::RFold => out.push(Obs::Items(it.rfold_all())),
+        End::ForEach => out.push(Obs::Items(it.for_each_all())),
         End::Adapt { rev, skip, step } => out.push(Obs::Items(it.adapt_all(rev, skip as usize, step as usize))),
         End::Exhaust => {
+            // an iterator that never ends must end the conversation, not the memory
+            let cap = it.len().saturating_add(ITER_CAP);
             while let Some(x) = it.next() {
                 out.push(Obs::Item(Some(x)));
+                if out.len() > cap {
+                    panic!("{ITER_NEVER_ENDS}");
+                }
             }
             out.push(Obs::Item(it.next()));
         }
     }
     out
+}
+
+/// The predicate of the searching steps: a fixed function of the item's value and a selector (about one item
+/// in three matches).
+pub fn sel_pred(x: &Item, sel: u8) -> bool {
+    // slot 0 only: it is the one slot every type has (the model keeps unused slots, the collection does not)
+    let b = x[0].to_bits();
+    let h = (b >> 9) ^ (b >> 14) ^ (b >> 20);
+    (h.wrapping_add(sel as u32)) % 3 == 0
 }
 
 /// Every item an observation trace shows as yielded, in order.
@@ -222,6 +255,10 @@ fn yielded(trace: &[Obs]) -> Vec<Item> {
     }
     v
 }
+
+/// More items than this beyond what `len()` announced: the iterator does not end.
+pub const ITER_CAP: usize = 4096;
+pub const ITER_NEVER_ENDS: &str = "palsim: no-termination: an iterator yielded 4096 items more than its len() and still has not ended";
 
 thread_local! {
     /// Observations made before an injected panic inside `run_sched`.
@@ -243,8 +280,11 @@ fn fresh_item_static(k: u32) -> Item {
     for (j, x) in a.iter_mut().enumerate() {
         *x = base + j as f32 * 0.125 + 0.0625;
     }
-    // keep items with equal `k % 160` apart (slot 1 is never a hue)
+    // keep items with equal `k % 160` apart (slot 1 is never a hue) ...
     a[1] += (k / 160) as f32 * (1.0 / 64.0);
+    // ... and in slot 0 too, for the one-component type (2^-10 steps are exact in f32 here and keep a hue in
+    // slot 0 below 180 degrees: ids stay under a million)
+    a[0] += (k / 160) as f32 * (1.0 / 1024.0);
     a
 }
 
@@ -326,6 +366,9 @@ impl Op {
 
 #[derive(Clone, Debug, Serialize, Deserialize, Hash, PartialEq, Eq)]
 pub struct Plan {
+    /// containers are cut back to 8 elements when they grow beyond this (0 = the default of 60)
+    #[serde(default)]
+    pub max_len: u16,
     pub ty: String,
     /// false: hues from the canonical numbering (bit comparison);
     /// true: arbitrary raw hues (370°, −10°, 1e5°...), compared with `PartialEq` only
@@ -364,6 +407,16 @@ fn gen_sched(rng: &mut Rng, mutable: bool, allow_panic: bool, fresh: &mut u32) -
             Step::Len
         } else if c < 4 {
             Step::SizeHint
+        } else if c == 5 && !mutable {
+            let k = rng.below(6) as u8;
+            match rng.below(6) {
+                0 => Step::Find(k),
+                1 => Step::RFind(k),
+                2 => Step::Position(k),
+                3 => Step::RPosition(k),
+                4 => Step::Any(k),
+                _ => Step::All(k),
+            }
         } else if c == 4 {
             // jumps: mostly short, sometimes past the end
             let n = *rng.pick(&[0u8, 1, 1, 2, 3, 7, 40]);
@@ -428,7 +481,7 @@ fn gen_end(rng: &mut Rng, leak_ok: bool) -> End {
             0 => End::Last,
             1 => End::Fold,
             2 => End::RFold,
-            _ => End::Exhaust,
+            _ => End::ForEach,
         },
         6 => End::Adapt { rev: rng.chance(2, 3), skip: *rng.pick(&[0u8, 0, 1, 2, 5, 30]), step: *rng.pick(&[1u8, 1, 2, 3, 7]) },
         7 => End::Count,
@@ -503,7 +556,12 @@ impl World for C18 {
                 1 => Op::Push,
                 2 => Op::Pop,
                 3 => Op::Extend {
-                    n: rng.below(9) as u8,
+                    // mostly a few items; sometimes around the sizes a chunked implementation would use
+                    n: match rng.below(12) {
+                        0 => *rng.pick(&[15u8, 16, 17, 31, 32, 33, 63, 64, 65]),
+                        1 if deep => *rng.pick(&[127u8, 128, 129, 200, 255]),
+                        _ => rng.below(9) as u8,
+                    },
                     panic_at: if unwind_ok && rng.chance(1, 3) { Some(rng.below(9) as u8) } else { None },
                     hint: gen_hint(rng),
                 },
@@ -573,7 +631,7 @@ impl World for C18 {
             };
             ops.push(op);
         }
-        Plan { ty: d.name.to_string(), raw_hues, ops }
+        Plan { max_len: if deep { 320 } else { 0 }, ty: d.name.to_string(), raw_hues, ops }
     }
 
     fn execute(&self, plan: &Plan, ctx: &mut Ctx<'_>) {
@@ -581,7 +639,7 @@ impl World for C18 {
             ctx.fail("harness", "unknown-type", format!("unknown type {}", plan.ty));
             return;
         };
-        Exec::new(d, plan.raw_hues, ctx).run(&plan.ops);
+        Exec::new(d, plan.raw_hues, ctx).with_max_len(plan.max_len).run(&plan.ops);
     }
 
     fn shrink(&self, plan: &Plan) -> Vec<Plan> {
@@ -768,6 +826,7 @@ struct Exec<'c, 'a> {
     model: Vec<Item>,
     next_id: u32,
     last_drain_partial: bool,
+    max_len: usize,
 }
 
 fn bits(i: &Item) -> [u32; 4] {
@@ -777,7 +836,14 @@ fn bits(i: &Item) -> [u32; 4] {
 impl<'c, 'a> Exec<'c, 'a> {
     fn new(d: &'static TypeDesc, raw_hues: bool, ctx: &'c mut Ctx<'a>) -> Self {
         let sut = (d.with_capacity)(0);
-        Exec { d, raw_hues, ctx, sut: Some(sut), model: Vec::new(), next_id: 0, last_drain_partial: false }
+        Exec { d, raw_hues, ctx, sut: Some(sut), model: Vec::new(), next_id: 0, last_drain_partial: false, max_len: 60 }
+    }
+
+    fn with_max_len(mut self, max_len: u16) -> Self {
+        if max_len > 0 {
+            self.max_len = max_len as usize;
+        }
+        self
     }
 
     fn fresh(&mut self) -> Item {
@@ -791,6 +857,7 @@ impl<'c, 'a> Exec<'c, 'a> {
         for x in it.iter_mut().skip(self.d.ncomp) {
             *x = 0.0;
         }
+
         if self.raw_hues {
             if let Some(h) = self.d.hue_slot {
                 const RAW: [f32; 8] = [370.0, -10.0, 100000.0, 360.0, -180.0, 180.0, 725.5, -0.5];
@@ -852,6 +919,8 @@ impl<'c, 'a> Exec<'c, 'a> {
                 Obs::NoRange => h.u64(6),
                 Obs::NotMutable => h.u64(7),
                 Obs::Sep => h.u64(9),
+                Obs::Pos(p) => h.u64(10 + ((p.map(|x| x as u64 + 1).unwrap_or(0)) << 8)),
+                Obs::Flag(b) => h.u64(11 + ((*b as u64) << 8)),
             }
         }
         ev!(self.ctx, "  observed {op}: {} observations, digest {:016x}", sut.len(), h.finish());
@@ -935,7 +1004,7 @@ impl<'c, 'a> Exec<'c, 'a> {
                 return;
             }
             // keep containers bounded
-            if self.model.len() > 60 {
+            if self.model.len() > self.max_len {
                 let keep = 8;
                 let sut = self.sut.as_mut().unwrap();
                 let _ = run_sched(sut.drain(&RangeSpec::From(keep)), &[], End::Drop);
@@ -956,11 +1025,15 @@ impl<'c, 'a> Exec<'c, 'a> {
                 let caps = sut.caps();
                 let lens = sut.lens();
                 self.ctx.checked();
-                if caps.iter().any(|c| *c < cap) || lens.iter().any(|l| *l != 0) {
+                // the property speaks about contents and lengths; how much is reserved is only counted
+                if caps.iter().any(|c| *c < cap) {
+                    self.ctx.extra("with_capacity-reserved-less-than-asked", 1);
+                }
+                if lens.iter().any(|l| *l != 0) {
                     self.ctx.fail(
                         "with_capacity",
                         &format!("{}:with_capacity", d.name),
-                        format!("with_capacity({cap}) gave capacities {caps:?}, lengths {lens:?}"),
+                        format!("with_capacity({cap}) gave a collection that is not empty: lengths {lens:?}"),
                     );
                     return None;
                 }
@@ -1015,14 +1088,32 @@ impl<'c, 'a> Exec<'c, 'a> {
                         Some("ok")
                     }
                     (Caught::Injected(_), Some(k)) => {
-                        // exactly the first k items were taken from the source
-                        self.model.extend(items[..k].iter().copied());
+                        // k items were taken from the source before it panicked. `Vec::extend` keeps them
+                        // (undocumented); an all-or-nothing implementation that keeps fewer, with every
+                        // component collection in lockstep, does not contradict the property either. So:
+                        // the first j <= k of them, whatever j the collection shows; contents, order, the
+                        // old prefix and equal component lengths are judged by the state check below.
+                        let lens = self.sut.as_ref().unwrap().lens();
+                        let l = lens.iter().copied().min().unwrap_or(0);
+                        let j = l.saturating_sub(len).min(k);
+                        if j < k {
+                            self.ctx.probe("extend-unwind-kept-fewer-than-taken");
+                        }
+                        self.model.extend(items[..j].iter().copied());
                         self.ctx.fired("unwind@source");
                         if k > 0 {
                             self.ctx.probe("extend-unwind-k>0");
                         }
                         ev!(self.ctx, "{n} extend {cnt} source panicked at {k}");
                         Some("unwound")
+                    }
+                    (Caught::Ok(()), Some(k)) if k == cnt => {
+                        // the source would only have panicked on the poll AFTER its last item: a consumer that
+                        // knows it has everything (an exact size hint used up) need not poll again
+                        self.model.extend(items.iter().copied());
+                        self.ctx.probe("source-not-polled-past-its-end");
+                        ev!(self.ctx, "{n} extend {cnt}: the source was not polled past its end");
+                        Some("ok")
                     }
                     (Caught::Ok(()), Some(k)) => {
                         self.ctx.fail(
@@ -1070,6 +1161,14 @@ impl<'c, 'a> Exec<'c, 'a> {
                         self.ctx.fired("unwind@source");
                         ev!(self.ctx, "{n} collect {cnt} source panicked at {k}");
                         Some("unwound")
+                    }
+                    (Caught::Ok(s), Some(k)) if k == cnt => {
+                        self.sut = Some(s);
+                        self.model = items;
+                        self.ctx.changed();
+                        self.ctx.probe("source-not-polled-past-its-end");
+                        ev!(self.ctx, "{n} collect {cnt}: the source was not polled past its end");
+                        Some("ok")
                     }
                     (Caught::Ok(_), Some(k)) => {
                         self.ctx.fail(
@@ -1521,7 +1620,7 @@ impl<'c, 'a> Exec<'c, 'a> {
             End::Forget => self.ctx.fired("leak"),
             End::Drop if sched_len > 0 => self.ctx.fired("cancel"),
             End::Adapt { rev: true, skip, step } if skip > 0 || step > 1 => self.ctx.probe("rev-then-skip-or-step_by"),
-            End::Last | End::Fold | End::RFold => self.ctx.probe("last-fold-rfold"),
+            End::Last | End::Fold | End::RFold | End::ForEach => self.ctx.probe("last-fold-rfold"),
             _ => {}
         }
     }
